@@ -328,6 +328,14 @@ func (fv *FuncVC) evalArgs(call *ast.CallExpr, f *types.Func, st *State) (recv *
 			inRepo := fv.w.ByObj[f.Origin()] != nil
 			if !inRepo {
 				// methods of dependency types: objects are opaque references, the receiver is the value itself
+				if rv.S == SRef {
+					_, ptrRecv := sig.Recv().Type().Underlying().(*types.Pointer)
+					if ptrRecv || types.IsInterface(rt) {
+						n := fv.nextOrd("nilrecv")
+						fv.oblig(st, "safe", fmt.Sprintf("safe:nilrecv@%d", n), "method call on possibly nil "+fv.text(se.X), mkNot(mkEq(rv.T, "nil")))
+						fv.addFact(st, mkNot(mkEq(rv.T, "nil")))
+					}
+				}
 				recv = &rv
 				goto args
 			}
